@@ -92,7 +92,12 @@ def gen_tables():
     # the rule tables of the validator (src/valid/validate.cpp) as Lean data: Props/C19Source.lean proves the model's tables equal them
     out2 = os.path.join(LEAN, 'NixModel', 'Gen', 'ValidRules.lean')
     rc2, o2 = sh([sys.executable, os.path.join(VERIF, 'gen', 'extract_valid_rules.py'), REPO, out2])
-    return rc2 == 0, o + o2
+    if rc2 != 0:
+        return False, o + o2
+    # the element-type mapping of the HDF5 backend (backend/hdf5/h5x/H5DataType.cpp): Props/C01Types.lean
+    out3 = os.path.join(LEAN, 'NixModel', 'Gen', 'Types.lean')
+    rc3, o3 = sh([sys.executable, os.path.join(VERIF, 'gen', 'extract_types.py'), REPO, out3])
+    return rc3 == 0, o + o2 + o3
 
 def lake(target):
     env = dict(os.environ)
